@@ -207,3 +207,24 @@ Theorem C20_mapor_km_state_is_spec (H : list (oprec (mop oop))) :
            (ospec_deferred (oabs <$> known_ops H K)).
 Proof. exact (mapor_refine_km H). Qed.
 Print Assumptions C20_mapor_km_state_is_spec.
+
+(** Map<K, Orswot>, EVERY history outside the classes of the known findings T2 and T3 (all commands; a key that some key remove names receives only nested adds [kmn_addonly] and at most one update per actor [km_once]; any other key receives anything): equal knowledge gives Leibniz-equal complete states; under a named key the nested set is clock + surviving members, nothing
+    parked; under any other key it is the Orswot specification of the ops learned under it (proofs/MapOrswotKMN.v) *)
+From Crdt Require Import model.Orswot model.Map spec.System spec.OrswotSpec spec.OrswotSystem spec.MapSpec spec.MapSystem spec.MapOrswotSpec spec.MapOrswotKM spec.MapOrswotKMN proofs.MapOrswotKMN proofs.MapOrswotKMNCor.
+Theorem C20_mapor_kmn_state_eq (H : list (oprec (mop oop))) :
+  mohist_ok_kmn H -> km_once H -> kmn_addonly H ->
+  forall (s1 s2 : cmap orswot) (K : gset nat), moreach_kmn H s1 K -> moreach_kmn H s2 K -> s1 = s2.
+Proof. exact (mapor_converge_kmn H). Qed.
+Print Assumptions C20_mapor_kmn_state_eq.
+
+Theorem C20_mapor_kmn_state_is_spec (H : list (oprec (mop oop))) :
+  mohist_ok_kmn H -> km_once H -> kmn_addonly H -> forall (s : cmap orswot) (K : gset nat), moreach_kmn H s K ->
+  s = CMap (mspec_clock (known_ops H K))
+           (fn_map (mspec_keys (known_ops H K))
+                   (fun k => Some (MEntry (mspec_entry_clock (known_ops H K) k)
+                       (if kmn_named (op_val <$> H) k
+                        then Orswot (mspec_entry_clock (known_ops H K) k) (mo_entries (known_ops H K) k) ∅
+                        else ospec_of (mo_proj (known_ops H K) k)))))
+           (ospec_deferred (oabs <$> known_ops H K)).
+Proof. exact (mapor_refine_kmn H). Qed.
+Print Assumptions C20_mapor_kmn_state_is_spec.
